@@ -415,5 +415,5 @@ func TestVF_C03(t *testing.T) {
 			}
 		}})
 	}
-	vfRunCases(t, "C03", cases, 4, 60*time.Second)
+	vfRunCases(t, "C03", cases, 4, time.Duration(vfPick(120, 900))*time.Second)
 }
